@@ -12,7 +12,7 @@ _TMP = None
 _FILES = {}
 
 MARKET_ID = "1.200000500"
-RUNNERS = [(701, 0, 25.0), (702, 0, 35.0), (703, 0, 40.0)]
+RUNNERS = [(701, 0, 25.0), (702, 0, 35.0), (703, 0, 30.0), (704, -1.5, 10.0)]
 
 
 def tmpdir():
@@ -34,7 +34,7 @@ def static_market(market_id=MARKET_ID, n_updates=40, suspended_at=(), closed_at=
         t += 1000
         rc = {k: {"atb": {2.0: 100.0, 1.9: 50.0}, "atl": {2.2: 100.0, 2.4: 50.0}} for k in mf.keys}
         if closed_at is not None and i >= closed_at:
-            mf.emit(t, md_changes={"status": "CLOSED"}, runner_md={mf.keys[0]: {"status": "WINNER"}, mf.keys[1]: {"status": "LOSER"}, mf.keys[2]: {"status": "LOSER"}})
+            mf.emit(t, md_changes={"status": "CLOSED"}, runner_md={k: {"status": "WINNER" if i == 0 else "LOSER"} for i, k in enumerate(mf.keys)})
         elif i in suspended_at:
             mf.emit(t, md_changes={"status": "SUSPENDED"})
         elif mf.md["status"] != "OPEN":
@@ -56,11 +56,11 @@ def make_strategy(name="L0", **kw):
     return BaseStrategy(market_filter={}, name=name, **kw)
 
 
-def make_order(strategy, market_id, sel=701, side="BACK", price=3.0, size=10.0, persistence="PERSIST", otype="LIMIT", liability=10.0, trade=None, tif=None, min_fill=None):
+def make_order(strategy, market_id, sel=701, side="BACK", price=3.0, size=10.0, persistence="PERSIST", otype="LIMIT", liability=10.0, trade=None, tif=None, min_fill=None, handicap=0):
     from flumine.order.trade import Trade
     from flumine.order.ordertype import LimitOrder, LimitOnCloseOrder, MarketOnCloseOrder
 
-    trade = trade or Trade(market_id, sel, 0, strategy)
+    trade = trade or Trade(market_id, sel, handicap, strategy)
     if otype == "LIMIT":
         ot = LimitOrder(price, size, persistence_type=persistence, time_in_force=tif, min_fill_size=min_fill)
     elif otype == "LOC":
